@@ -341,9 +341,22 @@ def c11(run, args):
 
 
 # --------------------------------------------------------------------------- C09
+IMPL_CFG = """SPECIFICATION Spec
+CONSTANTS
+  Thread = {t1, t2, t3}
+  Mailbox = {"a", "b"}
+  Cap = %(cap)d
+  Limit = %(limit)d
+  Programs <- AllPrograms
+  OldEnforcer = %(old)s
+INVARIANTS NoCrash AccountInv AtRestInv
+PROPERTIES RefinesContract
+CHECK_DEADLOCK FALSE
+"""
+
 LIN_CFG = """SPECIFICATION TraceSpec
 CONSTANT Mailbox = {%(mbs)s}
-INVARIANTS IdsUnique ArrivalInv
+INVARIANTS IdsUnique ArrivalInv OverLimitIsDoomed
 POSTCONDITION TraceAccepted
 CHECK_DEADLOCK FALSE
 """
@@ -358,6 +371,15 @@ def c09(run, args):
         behaviours = [dict(d["behaviour"], repeat=50)]
     else:
         run.model_check("MCMailstore", MC_CFG % dict(caps="0, 2", limits="0, 3", maxadds=3), label="MCMailstore(caps x limits)")
+        # the implementation-shaped model of the memory store: every interleaving of three clients refines the concurrent contract
+        for cap, limit in ((0, 4), (2, 4), (0, 0)) if quick else ((0, 4), (2, 4), (0, 0), (1, 3), (2, 5), (3, 0)):
+            run.model_check("MCMemStoreImpl", IMPL_CFG % dict(cap=cap, limit=limit, old="FALSE"), label="MemStoreImpl(cap=%d,limit=%d) refines ConcMailstore" % (cap, limit))
+        # the named deviation "code before the accounting fix": TLC must find the predicted defects (a prediction, never a verdict)
+        rc, out, dt = run.tlc("MCMemStoreImpl", IMPL_CFG % dict(cap=0, limit=4, old="TRUE"), workers=8, timeout=600, heap="8g")
+        predicted = [x for x in ("NoCrash", "RefinesContract", "AccountInv") if ("%s is violated" % x) in out]
+        run.cov["stages"].append({"stage": "model-check", "module": "MemStoreImpl(OldEnforcer=TRUE)", "mode": "prediction",
+                                  "violated_as_predicted": predicted, "wall_s": round(dt, 1)})
+        run.log("MemStoreImpl with OldEnforcer: predicted counterexample found for %s" % predicted)
         # programs: TLC-enumerated operation sequences dealt out to 2 or 3 concurrent clients; id references point at the
         # messages of the sequential set-up (two per mailbox) or at an id that was never issued
         seqs = run.generate("GenMailstore", gen_cfg(2, [1], [1], 4 if quick else 5, scan=False, seen=True))
